@@ -101,7 +101,11 @@ HandleDone(s, t, p, more) ==
   IN IF s.done THEN [s EXCEPT !.todo[t] = more]
      ELSE IF k = 4 THEN [s EXCEPT !.done = TRUE, !.todo[t] = <<<<"ocan", 0>>>> \o more]
      ELSE IF k = 3 /\ Bug # "exc_as_value" THEN [s EXCEPT !.done = TRUE, !.todo[t] = <<<<"wexc", i>>>> \o more]
-     ELSE LET q == IF Bug = "slot_shift" /\ p < N THEN p + 1 ELSE p
+     ELSE LET q == IF Bug = "slot_shift" /\ p < N THEN p + 1
+                   \* seeded model bug index_dict: one {future: index} dict - a repeated input keeps its LAST position
+                   ELSE IF Bug = "index_dict"
+                     THEN CHOOSE x \in DOMAIN cfgP : cfgP[x] = i /\ \A y \in DOMAIN cfgP : cfgP[y] = i => y <= x
+                   ELSE p
           IN IF s.remaining = 1
                THEN [s EXCEPT !.slots[q] = i, !.remaining = 0, !.done = TRUE, !.todo[t] = <<<<"wtup", 0>>>> \o more]
                ELSE [s EXCEPT !.slots[q] = i, !.remaining = @ - 1, !.todo[t] = more]
